@@ -352,9 +352,9 @@ fn step_timeout_k1<const DUE0: bool, const MECH: u8, const RELIABLE: bool>() {
     let n = committed(&mut client);
     assert!(n == nrec(), "events: every pushed event is committed");
     let ans = unsafe { RTO_ANS[0] };
-    if !DUE0 || ans.is_some() {
-        assert!(unsafe { AENV.violated_marker } == marker && unsafe { AENV.marker_calls } == 0, "C07/C17: the protection-violated marker is kept until the request's final time-out");
-    }
+    // (that the marker survives intermediate timer calls is decided on observed behaviour by the
+    // two-step query glue_timeout_two_steps_*: an implementation may read the mechanism's marker early
+    // as long as the final outcome is right)
     if !DUE0 {
         assert!(unsafe { RTO_CALLS } == 0, "C06: no schedule step before the deadline");
         assert!(client.transactions.len() == 1 && g_count() == 1);
@@ -406,6 +406,52 @@ fn step_timeout_k1<const DUE0: bool, const MECH: u8, const RELIABLE: bool>() {
     inv(&mut client, &[l.id]);
     std::mem::forget(client);
 }
+// ==========================================================================================
+// C07 / C17: the protection-violated marker across an intermediate timer call (two steps, observed
+// behaviour only).  One live request on unreliable transport with a mechanism; the mechanism model's
+// marker ("a response of this request failed its integrity check") is arbitrary and, like the real
+// TransportIntegrity, is consumed by the query that reads it.  First timer call: the deadline is due
+// and the schedule answers Some(interval) (a retransmission); second timer call: due again, the
+// schedule answers None (final time-out).  Whatever the client does in between, the failure must be
+// reported as protection-violated exactly when the marker was set.
+// ==========================================================================================
+fn timeout_two_steps<const MECH: u8>() {
+    let mut client = match mk_client(false, MECH, false, 2) { Some(c) => c, None => return };
+    let mut live: [Option<Live>; 2] = [None, None];
+    let t0 = setup::<1>(&mut client, &mut live);
+    let l = match &live[0] { Some(l) => Live { id: l.id, token: l.token, sent: l.sent }, None => return };
+    let marker: bool = kani::any();
+    unsafe {
+        DUE = [true, true];
+        RTO_ANS[0] = Some(Duration::from_millis(500));
+        RTO_ANS[1] = None;
+        AENV.violated_marker = marker;
+        AENV.marker_calls = 0;
+    }
+    let t1 = t0 + any_offset(70);
+    client.on_timeout(t1);
+    let n1 = committed(&mut client);
+    assert!(n1 == 2 && rec(0).kind == K_OUTPUT && rec(1).kind == K_NOTE, "C06: the first expiry is a retransmission");
+    assert!(client.transactions.contains_key(&l.id));
+    let t2 = t1 + any_offset(70);
+    rec_reset();
+    client.on_timeout(t2);
+    let n2 = committed(&mut client);
+    assert!(n2 == 1, "C05: exactly one final outcome");
+    let r0 = rec(0);
+    assert!(r0.kind == K_FAILED && r0.id == l.id, "C06: the request fails at its final deadline");
+    if MECH != MECH_NONE && marker {
+        assert!(r0.why == W_VIOLATED, "C07: a request one of whose responses failed the integrity check ends as protection-violated, however many timer calls lie in between");
+    } else {
+        assert!(r0.why == W_TIMEDOUT);
+    }
+    assert!(!client.transactions.contains_key(&l.id) && g_count() == 0);
+    kani::cover!(marker);
+    std::mem::forget(client);
+}
+glue! { fn glue_timeout_two_steps_st() { timeout_two_steps::<MECH_ST>(); } }
+glue! { fn glue_timeout_two_steps_lt() { timeout_two_steps::<MECH_LT>(); } }
+
 glue! { fn glue_timeout_k1_notdue() { step_timeout_k1::<false, MECH_NONE, false>(); } }
 glue! { fn glue_timeout_k1_due_unreliable() { step_timeout_k1::<true, MECH_NONE, false>(); } }
 glue! { fn glue_timeout_k1_due_reliable() { step_timeout_k1::<true, MECH_NONE, true>(); } }
